@@ -36,15 +36,10 @@ theorem C06_vecWF_of_validated_fixed {n : Nat} {ts : List Trans}
     (h : Validate.transVecWith Validate.checksFixed n ts = true) : C12.VecWF n ts :=
   Validate.transVecWith_sound Validate.checksFixed_sound (fun _ _ => trivial) h
 
-/-- … and for today's comparisons whenever no probability of the vector is NaN.
-    (TODAY-dependent, like Part 3 of Props/C12.lean: once `Validate.probBad/sumBad` are the `…Fixed`
-    variants, replace by
-      theorem C06_vecWF_of_validated {n ts} (h : Validate.transVec n ts = true) : C12.VecWF n ts := by
-        rw [Validate.transVec_eq_with] at h; exact C06_vecWF_of_validated_fixed h ) -/
-theorem C06_vecWF_of_validated_today {n : Nat} {ts : List Trans} (h : Validate.transVec n ts = true)
-    (hnn : ∀ t ∈ ts, val32 t.prob ≠ .nan) : C12.VecWF n ts := by
-  rw [Validate.transVec_eq_with] at h
-  exact Validate.transVecWith_sound Validate.checksCur_sound_on_non_nan hnn h
+/-- … which is what today's code uses (fix 65165a2): every vector accepted by `State::validate`
+    satisfies the hypothesis of the theorems below -/
+theorem C06_vecWF_of_validated {n : Nat} {ts : List Trans} (h : Validate.transVec n ts = true) : C12.VecWF n ts := by
+  rw [Validate.transVec_eq_with] at h; exact C06_vecWF_of_validated_fixed h
 
 /-- which outcomes select which target -/
 theorem C06_pick_some_iff {n : Nat} {ts : List Trans} (hv : C12.VecWF n ts) (k t : Nat) :
